@@ -19,6 +19,16 @@ from .exec import (Executor, Frame, PyRaise, ExcV, _Return, PathEnd, Closure,
 from . import prelude
 
 
+def _gid(v):
+    if isinstance(v, ListV):
+        return (v.n.get_id(),) + tuple(a.get_id() for a in v.ats)
+    if isinstance(v, ZV):
+        return v.t.get_id()
+    if hasattr(v, 'get_id'):
+        return v.get_id()
+    return id(v)
+
+
 class SpecError(Exception):
     """Contract does not translate: checker error (exit 3), never a verdict."""
 
@@ -137,7 +147,7 @@ class Spec:
         self.lemma_modules = {}
         self.spec_forms = {'old': self.f_old, 'implies': self.f_implies, 'iff': self.f_iff,
                            'wf': self.f_wf, 'ite': self.f_ite, 'let': self.f_let,
-                           'assume': self.f_assume}
+                           'assume': self.f_assume, 'unchanged_except': self.f_unchanged_except}
         self.spec_names = {}
         self.global_override = {}
         self.class_attr_store = {}
@@ -156,6 +166,8 @@ class Spec:
         self.ghost_decls = {}
         self.sites = {}
         self.site_prefix = {}
+        self._wf_cache = {}
+        self._parse_cache = {}
 
     # ----------------------------------------------------------- declaration
     def klass(self, qual, sort_name, fields=None, parent=None):
@@ -208,10 +220,15 @@ class Spec:
 
     # ------------------------------------------------------------ evaluation
     def parse(self, text):
+        node = self._parse_cache.get(text)
+        if node is not None:
+            return node
         try:
-            return ast.parse(text.strip(), mode='eval').body
+            node = ast.parse(text.strip(), mode='eval').body
         except SyntaxError as e:
             raise SpecError('spec does not parse: %r (%s)' % (text, e))
+        self._parse_cache[text] = node
+        return node
 
     def eval_spec(self, X, text, env, module=None):
         """Evaluate a spec expression to a z3 Bool (or a Val)."""
@@ -282,6 +299,25 @@ class Spec:
             X.spec_mode -= 1
         return NONE
 
+    def f_unchanged_except(self, X, node, fr):
+        """unchanged_except(obj, 'f1,f2'): every declared field of obj (own class
+        and ancestors) other than the listed ones has its old value."""
+        obj = deref(X.ev(node.args[0], fr))
+        exc = set(x.strip() for x in deref(X.ev(node.args[1], fr)).v.split(',') if x.strip())
+        kl = self.sort_classes[obj.t.sort().name()]
+        snap = X.old_stack[-1]
+        conj = []
+        sn = obj.t.sort().name()
+        for f, T in kl.all_fields().items():
+            if f in exc or isinstance(T, ClassLevel):
+                continue
+            new = X.heap_leaves(sn, f, T)
+            old = snap['heap'].get((sn, f)) or X.initial_leaves((sn, f))
+            for a, b in zip(new, old):
+                if not a.eq(b):
+                    conj.append(a[obj.t] == b[obj.t])
+        return ZV(z3.And(*conj)) if conj else Con(True)
+
     def f_let(self, X, node, fr):
         # let(name=expr, ..., body)  evaluated left to right
         sub = Frame(fr.module, parent=fr)
@@ -302,13 +338,7 @@ class Spec:
         return ZV(self.wf_formula(X, obj, only))
 
     def wf_formula(self, X, obj, only=None, roles=None):
-        kl = self.sort_classes[obj.t.sort().name()]
-        conj = []
-        for (k, name, role, text) in kl.all_invariants():
-            if only is not None and not self.inv_selected(kl, k, name, only):
-                continue
-            env = {'self': obj}
-            conj.append(self.eval_bool(X, text, env))
+        conj = [f for _, _, f in self.wf_clauses(X, obj, only)]
         return z3.And(*conj) if conj else z3.BoolVal(True)
 
     def inv_selected(self, kl, declaring, name, only):
@@ -326,12 +356,27 @@ class Spec:
         return False
 
     def wf_clauses(self, X, obj, only=None):
-        kl = self.sort_classes[obj.t.sort().name()]
+        """Invariant clauses of obj in the current state.  Memoised on the identity
+        of the heap arrays and ghosts (z3 terms are hash-consed), since the same
+        state recurs at every call site, callback site and exit of a path."""
+        sn = obj.t.sort().name()
+        kl = self.sort_classes[sn]
+        sig = (sn, obj.t.get_id(), only,
+               tuple((k, tuple(a.get_id() for a in v)) for k, v in sorted(X.heap.items())),
+               tuple((g, _gid(v)) for g, v in sorted(X.ghost.items())))
+        hit = self._wf_cache.get(sig)
+        if hit is not None:
+            return hit[0]
         out = []
+        keep = (dict(X.heap), dict(X.ghost), obj)
+        n_pc = len(X.pc)
         for (k, name, role, text) in kl.all_invariants():
             if only is not None and not self.inv_selected(kl, k, name, only):
                 continue
             out.append((name, role, self.eval_bool(X, text, {'self': obj})))
+        if len(X.pc) == n_pc and tuple((k, tuple(a.get_id() for a in v))
+                                       for k, v in sorted(X.heap.items())) == sig[3]:
+            self._wf_cache[sig] = (out, keep)
         return out
 
     # -------------------------------------------------- default code hooks
@@ -1037,6 +1082,15 @@ class FunctionRun:
         return prelude.set_enumeration(X, s)
 
     def check_clause(self, X, name, text, env, m, role, kind):
+        import re
+        mt = re.fullmatch(r"\s*wf\(\s*(\w+)\s*(?:,\s*['\"]([^'\"]*)['\"]\s*)?\)\s*", text)
+        if mt and mt.group(1) in env:
+            # one named obligation per invariant clause
+            obj = deref(env[mt.group(1)])
+            for cname, crole, f in self.spec.wf_clauses(X, obj, mt.group(2)):
+                oblige_split(X, '%s.%s' % (name, cname), f, kind, crole if crole == 'prop' else role,
+                             info={'clause': 'invariant %s' % cname})
+            return
         goal = self.spec.eval_bool(X, text, env, m)
         oblige_split(X, name, goal, kind, role, info={'clause': text})
 
@@ -1114,16 +1168,34 @@ def split_goal(f, hyps=(), depth=0):
 
 def oblige_split(X, name, goal, kind, role, info=None, assume_after=False):
     _sk[0] = 0
-    parts = split_goal(goal)
+    # conjuncts that are literally among the hypotheses of this path (an invariant
+    # over untouched state: same heap arrays, hence the same formula) hold by frame
+    todo, by_frame = [], 0
+    for c in split_conj(goal):
+        if c.get_id() in X.pc_atoms or z3.is_true(c):
+            by_frame += 1
+        else:
+            todo.append(c)
+    if by_frame:
+        X.oblige(name + '[by-frame:%d]' % by_frame, z3.BoolVal(True), kind=kind, role=role,
+                 info=info, assume_after=False)
+    if not todo:
+        if assume_after:
+            X.assume(goal)
+        return
+    goal_ = z3.And(*todo) if len(todo) > 1 else todo[0]
+    parts = split_goal(goal_)
     for i, (hy, g) in enumerate(parts):
         nm = name if i == 0 else '%s/%d' % (name, i)
         if hy:
             saved = len(X.pc)
+            X.base_len = saved
             X.pc.extend(hy)
             try:
                 X.oblige(nm, g, kind=kind, role=role, info=info, assume_after=False)
             finally:
                 del X.pc[saved:]
+                X.base_len = None
         else:
             X.oblige(nm, g, kind=kind, role=role, info=info, assume_after=False)
     if assume_after:
